@@ -63,12 +63,28 @@ theorem bareOk_cases (k : String) (h : bareOk k = true) :
     · right; right; left; exact h
     · right; right; right; exact h
 
+/-- the rules take a bare operand as the one operand of the unary operators, `$size`,
+    `$concatArrays`, `$add $multiply $concat` only: every other strict operator of the fragment
+    wants another number of arguments -/
+theorem strict_bare_ok (k : String) (hp : provedStrict.contains k = true)
+    (hacc : accOps.contains k = false) (a r : Option Val) (hs : applyStrict k [a] = .ok r) :
+    bareOk k = true := by
+  simp only [provedStrict, arithOps, datePartOps, accOps, List.cons_append, List.nil_append,
+    List.contains_cons, List.contains_nil, Bool.or_false, Bool.or_eq_true, beq_iff_eq] at hp
+  rcases hp with rfl | rfl | rfl | rfl | rfl | rfl | rfl | rfl | rfl | rfl | rfl | rfl | rfl | rfl
+    | rfl | rfl | rfl | rfl | rfl | rfl | rfl | rfl | rfl | rfl | rfl | rfl | rfl | rfl | rfl | rfl
+    | rfl | rfl | rfl | rfl | rfl | rfl | rfl | rfl | rfl | rfl | rfl <;>
+  first
+    | decide
+    | (exact absurd hacc (by decide))
+    | (simp [applyStrict] at hs)
+
 /-- a strict operator applied to one operand that is not written as a list -/
 theorem whole_core (c : Ctx) (root : Val) (env : Env) (hr : EnvRel c root env) (k : String)
     (v : Val) (hag : Agrees v) (ha : v.isArr = false) (htz : hasTzKeys v = false)
+    (hacc : accOps.contains k = false)
     (h1 : unproved k = []) (h2 : okReasons (sEval root env v) = [])
     (h3 : rExpr root env v = [])
-    (h4 : (if bareOk k = true then [] else ["scalararg"]) = [])
     (h5' : ∀ a, sEval root env v = .ok a → strictReasons k [a] = [])
     (res : Option Val)
     (hres : (do applyStrict k [← sEval root env v]) = .ok res) :
@@ -78,10 +94,7 @@ theorem whole_core (c : Ctx) (root : Val) (env : Env) (hr : EnvRel c root env) (
   have h5 := h5' a ha'
   rw [ha'] at hev hres
   have hres' : applyStrict k [a] = .ok res := by simpa [bind, Except.bind] using hres
-  have hb : bareOk k = true := by
-    cases hc : bareOk k with
-    | true => rfl
-    | false => rw [hc] at h4; simp at h4
+  have hb : bareOk k = true := strict_bare_ok k (unproved_nil k h1) hacc a res hres'
   rcases bareOk_cases k hb with hu | hk
   · have hk := wholeOps_cases k (unproved_nil k h1) hu
     exact whole_strict c hr.hign k hk v ha htz a hev h5 res hres'
@@ -96,14 +109,14 @@ theorem accOps_cases (k : String) (h : accOps.contains k = true) :
   simpa [accOps] using h
 
 /-- `$sum $avg $min $max` applied to one operand that is not written as a list: an array value
-    is ranged over, any other value is the one value; a missing value is outside D -/
+    is ranged over, any other value is the one value, a missing one leaves nothing to range over -/
 theorem acc_scalar_core (c : Ctx) (root : Val) (env : Env) (hr : EnvRel c root env) (k : String)
     (hk : accOps.contains k = true) (v : Val) (hag : Agrees v) (ha : v.isArr = false)
     (h1 : okReasons (sEval root env v) = []) (h2 : rExpr root env v = [])
     (h3 : (match sEval root env v with
          | .ok (some (.arr xs)) => strictReasons k (xs.map some)
          | .ok (some _) => []
-         | .ok none => ["accbaremissing"]
+         | .ok none => []
          | .error _ => []) = [])
     (res : Option Val)
     (hres : (do (accBareS k (← sEval root env v)).map some) = .ok res) :
@@ -113,7 +126,9 @@ theorem acc_scalar_core (c : Ctx) (root : Val) (env : Env) (hr : EnvRel c root e
   rw [ha'] at hev hres h3
   have hk' := accOps_cases k hk
   cases a with
-  | none => simp at h3
+  | none =>
+    rw [acc_bare_missing c k hk' v ha hev]
+    simpa [bind, Except.bind] using hres
   | some x =>
     cases hx : x.isArr with
     | true =>
@@ -160,11 +175,11 @@ theorem op_scalar_case (c : Ctx) (root : Val) (env : Env) (hr : EnvRel c root en
           (match sEval root env v with
            | .ok (some (.arr xs)) => strictReasons k (xs.map some)
            | .ok (some _) => []
-           | .ok none => ["accbaremissing"]
+           | .ok none => []
            | .error _ => [])
         else if strictOps.contains k = true then
           unproved k ++ okReasons (sEval root env v) ++ rExpr root env v ++
-          (if bareOk k = true then [] else ["scalararg"]) ++
+          (if k = "$strcasecmp" then ["scalararg"] else []) ++
           (match sEval root env v with
            | .ok r => strictReasons k [r]
            | .error _ => [])
@@ -195,7 +210,7 @@ theorem op_scalar_case (c : Ctx) (root : Val) (env : Env) (hr : EnvRel c root en
         obtain ⟨h123, h4⟩ := append_nil2 h1234
         obtain ⟨h12, h3⟩ := append_nil2 h123
         obtain ⟨h1, h2⟩ := append_nil2 h12
-        exact whole_core c root env hr k v hag ha htz h1 h2 h3 h4
+        exact whole_core c root env hr k v hag ha htz hacc' h1 h2 h3
           (fun a ha' => by rw [ha'] at h5; exact h5) res hres'
       · have hst' : strictOps.contains k = false := by simpa using hst
         simp only [hst', Bool.false_eq_true, if_false] at hre' hres'
